@@ -13,6 +13,11 @@ use muxide::assert_invariant;
 fn read_hex_bytes(contents: &str) -> Vec<u8> {
     let hex: String = contents.chars().filter(|c| !c.is_whitespace()).collect();
     assert!(hex.len() % 2 == 0, "hex must have even length");
+    // `u8::from_str_radix` also accepts a leading '+', which is not a hex digit.
+    assert!(
+        hex.bytes().all(|b| b.is_ascii_hexdigit()),
+        "hex must contain only hexadecimal digits"
+    );
 
     let mut out = Vec::with_capacity(hex.len() / 2);
     for i in (0..hex.len()).step_by(2) {
